@@ -471,62 +471,75 @@ func runSVG(c *Ctx, r *Reporter) {
 				}
 				return out, whole
 			}
-			// the condition that guards setAttr in Push
-			var guards []ssa.Value
-			for _, b := range pushFn.Blocks {
-				for _, ins := range b.Instrs {
-					ci, ok := ins.(ssa.CallInstruction)
-					if !ok || !(ci.Common().IsInvoke() && ci.Common().Method.Name() == "setAttr") {
-						continue
-					}
-					for d := b; d != nil; d = d.Idom() {
-						if id := d.Idom(); id != nil && len(id.Instrs) > 0 {
-							if ifi, ok := id.Instrs[len(id.Instrs)-1].(*ssa.If); ok && edgeDominates(id, 0, b) {
-								guards = append(guards, ifi.Cond)
+			// Push and the bool-valued helpers it calls on the platform: the pen is compared as a whole, or every field is read
+			isPen := func(v ssa.Value) bool { // rt.attr (address or loaded value)
+				if u, ok := v.(*ssa.UnOp); ok {
+					v = u.X
+				}
+				fa, ok := v.(*ssa.FieldAddr)
+				if !ok {
+					return false
+				}
+				o, f := fieldAddrInfo(fa)
+				return o != nil && o.Obj().Name() == "GraphicsPlatform" && f == "attr"
+			}
+			whole := false
+			got := map[string]bool{}
+			var scan func(fn *ssa.Function, depth int, seen map[*ssa.Function]bool)
+			scan = func(fn *ssa.Function, depth int, seen map[*ssa.Function]bool) {
+				if fn == nil || seen[fn] || depth > 2 {
+					return
+				}
+				seen[fn] = true
+				for _, b := range fn.Blocks {
+					for _, ins := range b.Instrs {
+						switch x := ins.(type) {
+						case *ssa.BinOp:
+							if (x.Op == token.EQL || x.Op == token.NEQ) && (isPen(x.X) || isPen(x.Y)) {
+								whole = true
+							}
+						case *ssa.FieldAddr:
+							if o, f := fieldAddrInfo(x); o != nil && o.Obj() == attrT && isPen(x.X) {
+								got[f] = true
+							}
+						case *ssa.Field:
+							if o, f := fieldValInfo(x); o != nil && o.Obj() == attrT && isPen(x.X) {
+								got[f] = true
+							}
+						case *ssa.Call:
+							sc := x.Call.StaticCallee()
+							if sc == nil || sc.Signature.Recv() == nil || sc.Signature.Results().Len() != 1 {
+								continue
+							}
+							if bt, ok := sc.Signature.Results().At(0).Type().Underlying().(*types.Basic); ok && bt.Kind() == types.Bool {
+								if rn := namedOf(sc.Signature.Recv().Type()); rn != nil && rn.Obj().Name() == "GraphicsPlatform" {
+									scan(sc, depth+1, seen)
+								}
 							}
 						}
 					}
 				}
 			}
-			covered := false
+			scan(pushFn, 0, map[*ssa.Function]bool{})
 			missing := ""
-			for _, g := range guards {
-				for i := 0; i < 3; i++ {
-					if u, ok := g.(*ssa.UnOp); ok && u.Op == token.NOT {
-						g = u.X
-					}
+			covered := whole
+			if !whole {
+				covered = len(got) > 0
+				var fs []string
+				for f := range all {
+					fs = append(fs, f)
 				}
-				switch x := g.(type) {
-				case *ssa.BinOp:
-					if (x.Op == token.EQL || x.Op == token.NEQ) && types.Identical(x.X.Type(), attrT.Type()) {
-						covered = true
+				sort.Strings(fs)
+				for _, f := range fs {
+					if !got[f] {
+						covered = false
+						missing = f
 					}
-				case *ssa.Call:
-					if sc := x.Call.StaticCallee(); sc != nil {
-						got, whole := fieldsRead(sc, 0, map[*ssa.Function]bool{})
-						if whole {
-							covered = true
-							break
-						}
-						covered = true
-						for f := range all {
-							if !got[f] {
-								covered = false
-								missing = f
-							}
-						}
-					}
-				}
-				if covered {
-					break
 				}
 			}
-			if len(guards) == 0 {
-				r.Undecided("Push: no condition guards the call of setAttr")
-			} else {
-				r.Check(covered, "svg.Push#styled-test-covers-the-pen", p.Rel(pushFn.Pos()), "whether the shapes need attributes is decided on the whole pen",
-					"Push decides whether the pending shapes get the pen's attributes without looking at the pen's "+missing+": a pen that differs from the default only there (`dash 5 3` then a line) is written without it")
-			}
+			_ = fieldsRead
+			r.Check(covered, "svg.Push#styled-test-covers-the-pen", p.Rel(pushFn.Pos()), "whether the shapes need attributes is decided on the whole pen",
+				"Push decides whether the pending shapes get the pen's attributes without looking at the pen's "+missing+": a pen that differs from the default only there (`dash 5 3` then a line) is written without it")
 		}
 	}
 	// sibling agreement with the browser runtime: every canvas style property that the JavaScript gridn overrides
